@@ -90,6 +90,9 @@ def build_call(spec, is_async):
         for k in spec["kwargs"]:
             v = read_path(src, k["path"])
             kwargs[k["param"]] = native(v) if k.get("container", "native") == "native" else v
+            if kwargs[k["param"]] is None:
+                # e.g. an unset google.protobuf.Value reads as None through proto-plus: the keyword is then NOT given
+                spec["_rec"].setdefault("none_kwargs", []).append(k["param"])
     return kwargs
 
 
